@@ -1,6 +1,9 @@
 package schema
 
-import "regexp"
+import (
+	"math"
+	"regexp"
+)
 
 // C02 — Unserialize accepts exactly the values meeting every declared value constraint.
 // Oracles below are independent restatements of the property text; they never call the code under test.
@@ -347,3 +350,31 @@ func VerifC02_Map() {
 	verifObserve("accepted", err == nil)
 	verifReach("C02/map/end")
 }
+
+// an integer schema with units: a unit string denotes the sum of count x multiplier when that fits in 64 bits, and
+// is then subject to the bounds like any other representation; a sum that does not fit is rejected, never wrapped
+func VerifC02_IntUnits() {
+	min, max := verifOptInt64("min"), verifOptInt64("max")
+	s := NewIntSchema(min, max, UnitBytes)
+	pb, tb := nondetDigits("pb", 4), nondetDigits("tb", 4)
+	var cp, ct uint64
+	for j := 0; j < 4; j++ {
+		cp = cp*10 + uint64(pb[j]-'0')
+		ct = ct*10 + uint64(tb[j]-'0')
+	}
+	const mPB, mTB = int64(1125899906842624), int64(1099511627776)
+	fitsP := cp <= uint64(math.MaxInt64/mPB)
+	tP := int64(cp) * mPB
+	tT := int64(ct) * mTB // 9999 TB always fits
+	fits := vAnd(fitsP, vOr(vNot(fitsP), tP <= math.MaxInt64-tT))
+	n := tP + tT
+	got, err := s.Unserialize(pb + "PB" + tb + "TB")
+	verifAssert("C02/intunits/accepts-iff-fits-and-in-range", vIff(err == nil, vAnd(fits, specInRangeInt(n, min, max))))
+	if err == nil {
+		verifAssert("C02/intunits/value-is-the-sum", got.(int64) == n)
+	}
+	verifObserve("ok", err == nil)
+	verifReach("C02/intunits/end")
+}
+
+func init() { verifRegister("VerifC02_IntUnits", VerifC02_IntUnits) }
